@@ -15,6 +15,7 @@ RULE = (
     "call site present or null; names/paths incl. non-ASCII) + injective old->new offset mapping that may drop ops and "
     "need not be monotone, given as a dict filled in a drawn key order; a second stratum takes maps produced by the compiler/decompilers for generated programs. "
     "Non-trivial = map has >= 1 macro entry with a return address AND the mapping drops >= 1 op; distinct by content hash."
+    ' One case in five is stretched (all old offsets x37 or x1000). rewrite_offsets runs with the recursion limit the package configures.'
 )
 ASSUMPTIONS = [
     "return addresses are >= 1 (the compiler computes counter + n + 1); 0 is not generated",
